@@ -19,7 +19,7 @@ class PropSpec:
         for n in self.contracts + self.lemmas:
             out.append(('contract', n[0] if isinstance(n, tuple) else n))
         # the library models every obligation rests on are confronted with CPython on every run
-        return out + [('ground', n) for n in self.ground] + [('ground', 'engine.library-models')]
+        return out + [('ground', n) for n in self.ground] + [('ground', 'engine.library-models'), ('ground', 'engine.assumed-views')]
 
     def case_filter(self, name):
         """Only these clauses of a shared contract belong to this property (None = all)."""
@@ -265,9 +265,11 @@ PROPS = {
                     extra=lambda tier, rng: __import__('props.bounded', fromlist=['x']).time_zones('C15', tier, rng)),
     'C03': PropSpec('C03', contracts=_c03(), lemmas=[L + 'c03_roundtrip'], ground=['spec.container-round-trip'], floor=1000,
                     assumptions=['containers: the composition dec(enc(d)) == norm_value(d) of the verified encoder and decoder '
-                                 'contracts is a specification-level induction, taken as an axiom in the lemma and exercised by the '
-                                 'bounded stand-in; scalars are proved outright',
-                                 'encode.decimal goes through str(value): bounded stand-in, never counted as discharged',
+                                 'contracts is a specification-level structural induction: its base and step obligations are discharged '
+                                 'by the ground unit spec.container-round-trip, the induction principle itself (A11) is the '
+                                 'meta-rule left to the reader; scalars are proved outright',
+                                 'encode.decimal / decode.decimal: verified under the Decimal library model of A5 (as_tuple, '
+                                 'scaleb-style arithmetic), itself only tested against CPython by engine.library-models',
                                  'float packing, datetime arithmetic: assumed library contracts A3/A5',
                                  'nesting depth: unbounded under A8 (recursive calls use the contract)'],
                     extra=lambda tier, rng: __import__('props.bounded', fromlist=['x']).field_values('C03', tier, rng)),
